@@ -17,7 +17,8 @@ from . import wire
 from .driver import Hang, World, observe_mailbox, quote, tagged_message
 from .run import CaseResult, Violation
 
-NAMES = ["inbox", "mb", "mb/sub", "other", "new1", "new1/kid", "with space"]
+# ("mb/mb": an inferior whose path repeats its superior's name - seeded/C12-4, a rename done with SQL replace())
+NAMES = ["inbox", "mb", "mb/sub", "other", "new1", "new1/kid", "with space", "mb/mb"]
 DATES = ['"01-Jan-2020 10:00:00 +0000"', '" 5-Mar-2021 23:59:59 -0800"', '"17-Jul-2019 00:00:01 +0530"', '"31-Dec-2022 12:00:00 +0000"', '"09-Sep-2018 06:30:00 +0000"']
 
 
@@ -44,6 +45,9 @@ def step_strategy(restart_w=1, ns_w=2):
         (1, st.builds(lambda b, on: {"op": "subscribe", "box": b, "on": on}, nm, st.booleans())),
         (2, st.builds(lambda b, ss, f: {"op": "flag", "box": b, "set": ss, "flag": f}, nm, sset, st.integers(0, 5))),
         (restart_w, st.just({"op": "restart"})),
+        # the same name deleted and created again, with and without a subscription that keeps it as a
+        # \Noselect placeholder in between (seeded/C02-4)
+        (1, st.builds(lambda b, sub: {"op": "recreate", "box": b, "sub": sub}, nm, st.booleans())),
     ]
     pool = []
     for w, s in items:
@@ -155,7 +159,18 @@ class Fam:
 
     async def do(self, s):
         op = s["op"]
-        name = self.name_of(s.get("box", 0), existing=op not in ("create",))
+        if op == "recreate":
+            nm_ = self.name_of(s["box"], existing=True)
+            if nm_.lower() == "inbox":
+                return
+            if s.get("sub"):
+                await self.do({"op": "subscribe", "box": 0, "on": True, "name": nm_})
+            await self.do({"op": "delete", "box": 0, "name": nm_})
+            await self.do({"op": "create", "box": 0, "name": nm_})
+            if s.get("sub"):
+                await self.do({"op": "subscribe", "box": 0, "on": False, "name": nm_})
+            return
+        name = s["name"] if "name" in s else self.name_of(s.get("box", 0), existing=op not in ("create",))
         self.check_pack()
         if op == "append":
             tag = self.new_tag()
